@@ -133,6 +133,10 @@ def gen_stream(r):
             reconnects.add(len(batches))
             forced = [r.choice(["replay-oldest", "replay-oldest", "replay"]),
                       r.choice(["no-seqnum", "string-seqnum", "float-seqnum", "replay-oldest", "lower-seq", "fresh"])]
+        if not forced and r.random() < 0.3:
+            # an element that cannot even be unsigned, immediately followed by good announcements
+            forced = [r.choice(["nonbytes-sig", "nonbytes-key", "nonbytes-both", "deep-json", "not-a-triple", "signed-not-object", "bad-b32-key"]),
+                      "fresh", r.choice(["fresh", "fresh", "replay"])]
         for _ in range(max(len(forced), r.choice([1, 2, 3, 3, 4, 6]))):
             k = r.randrange(1, NKEYS + 1)
             kind = forced.pop(0) if forced else r.choice(["fresh"] * 6 + ["replay", "replay", "duplicate", "same-seq-other-content", "lower-seq", "wrong-service",
@@ -140,6 +144,7 @@ def gen_stream(r):
                                              "wrong-key", "flipped-msg", "flipped-sig", "truncated-sig",
                                              "unsigned", "sig-no-v0", "key-no-v0", "bad-b32-sig", "bad-b32-key", "short-key", "random-key",
                                              "respelled-key", "respelled-key-replay", "not-a-triple",
+                                             "nonbytes-sig", "nonbytes-key", "nonbytes-both", "deep-json",
                                              "signed-not-utf8", "signed-not-json", "signed-not-object", "signed-no-service",
                                              "signed-bad-nickname", "signed-bad-furl"])
             if kind in ("replay", "duplicate", "respelled-key-replay", "wrong-key", "flipped-msg", "flipped-sig", "truncated-sig",
@@ -228,6 +233,15 @@ def gen_stream(r):
             elif kind == "respelled-key-replay":
                 m, s, ks = r.choice(history[k])
                 w = (m, s, alias_of(ks))
+            elif kind in ("nonbytes-sig", "nonbytes-key", "nonbytes-both"):
+                # a number, list, dict, True or text where the bytes of the signature / key belong
+                m, s_, ks = (history[k] or [(b"{}", b"v0-aa", key(k)[2])])[-1]
+                junk = lambda: r.choice([5, 7.5, [1], ["v0-x"], {"a": 1}, True, "v0-text", s_.decode("ascii"), -1])
+                w = (m, junk() if kind != "nonbytes-key" else r.choice([s_, s_, b"", None]),
+                     junk() if kind != "nonbytes-sig" else r.choice([ks, ks, b"x" + ks, b"", 0]))
+            elif kind == "deep-json":
+                # validly signed, but json.loads cannot parse it within the recursion limit
+                w = signed_raw(k, b"[" * 30000 + r.choice([b"", b"1"]) + b"]" * 30000)
             elif kind == "not-a-triple":
                 m, s, ks = (history[k] or [(b"{}", b"v0-aa", key(k)[2])])[-1]
                 w = r.choice([(m, s), (m, s, ks, b"x"), m, (), 5])
@@ -255,11 +269,23 @@ def gen_stream(r):
 
 
 # ---- independent reading of a wire (driver side of the abstraction) ------------------
+_analysed = {}
+
+
 def analyse_msg(msg):
-    """-> None (not UTF-8/JSON) | "malformed" | dict(service, desc_ok, seq, canon, ann)"""
+    """-> None (not UTF-8/JSON) | "malformed" | dict(service, desc_ok, seq, canon, ann)   (memoised; dicts are copies)"""
+    if msg not in _analysed:
+        if len(_analysed) > 20000:
+            _analysed.clear()
+        _analysed[msg] = _analyse_msg(msg)
+    a = _analysed[msg]
+    return dict(a) if isinstance(a, dict) else a
+
+
+def _analyse_msg(msg):
     try:
         js = json.loads(msg.decode("utf-8"))
-    except ValueError:
+    except (ValueError, RecursionError):
         return None
     if not isinstance(js, dict) or "service-name" not in js:
         return "malformed"
@@ -289,7 +315,9 @@ def classify_key(ks):
     """claimed key string -> ("empty",) | ("nov0",) | ("ok", key id, spelling)   (id 0: does not decode to 32 bytes; 9: unknown key)"""
     if not ks:
         return ("empty",)
-    if not isinstance(ks, bytes) or not ks.startswith(b"v0-"):
+    if not isinstance(ks, bytes):
+        return ("notbytes",)
+    if not ks.startswith(b"v0-"):
         return ("nov0",)
     raw = lenient_b32decode(ks[3:])
     if raw is None or len(raw) != 32:
@@ -339,6 +367,8 @@ class Symbols(object):
         mid = self.msg(m if isinstance(m, bytes) else b"")
         if not s:
             sf = "SfEmpty"
+        elif not isinstance(s, bytes):
+            sf = "SfNotBytes"
         elif not s.startswith(b"v0-"):
             sf = "SfNoV0"
         else:
@@ -349,7 +379,7 @@ class Symbols(object):
                 who = self.S.who(raw)
                 sf = "(SfOk (SigJunk %s))" % T.N(n) if who is None else "(SfOk (SigOf %s %s))" % (T.N(who[0]), T.N(self.msg(who[1])))
         c = classify_key(ks)
-        kf = "KfEmpty" if c[0] == "empty" else "KfNoV0" if c[0] == "nov0" else "(KfOk (%s, %s))" % (T.N(c[1]), T.N(c[2]))
+        kf = "KfEmpty" if c[0] == "empty" else "KfNoV0" if c[0] == "nov0" else "KfNotBytes" if c[0] == "notbytes" else "(KfOk (%s, %s))" % (T.N(c[1]), T.N(c[2]))
         return "(WTriple %s %s %s)" % (T.N(mid), sf, kf)
 
 
@@ -403,8 +433,9 @@ def rule_run(S, batches, subscribed, server=False):
 def describe(batches):
     def show(w):
         if isinstance(w, tuple):
-            return [x.decode("latin-1") if isinstance(x, bytes) else repr(x) for x in w]
-        return repr(w)
+            return [(x.decode("latin-1") if len(x) <= 600 else x[:60].decode("latin-1") + "...(%d bytes)..." % len(x) + x[-60:].decode("latin-1"))
+                    if isinstance(x, bytes) else repr(x) for x in w]
+        return repr(w)[:600]
     return [[{"kind": it["kind"], "wire": show(it["wire"])} for it in b] for b in batches]
 
 
@@ -649,7 +680,7 @@ def unsign_cases(ctx, alias_ok, terms, info):
     from allmydata.crypto.error import BadSignature
     from allmydata.introducer.common import unsign_from_foolscap, UnknownKeyError
     seen = set()
-    for i in range(ctx.n(25, 250)):
+    for i in range(ctx.n(20, 250)):
         r = ctx.rng("unsign", i)
         S, batches, reconnects = gen_stream(r)
         sym = Symbols(S)
@@ -692,7 +723,7 @@ def run(ctx):
     ctx.note("base32 layer accepts respelled key strings: %s" % alias_ok)
     cache = os.path.join(env.subdir("c34"), "announcements.yaml")
     terms, info = [], []
-    for i in range(ctx.n(120, 1500)):
+    for i in range(ctx.n(100, 1500)):
         one_stream(ctx, i, alias_ok, cache, terms, info)
     unsign_cases(ctx, alias_ok, terms, info)
     bad = ctx.coq_check(IMPORTS, terms, tag="c34", shard=max(20, (len(terms) + 7) // 8))
